@@ -269,7 +269,11 @@ impl C25Job {
                 _ => {}
             }
         }
-        json!({"packages": self.pkgs.iter().map(|p| p.name.clone()).collect::<Vec<_>>(), "xml_parts": parts,
+        let mut per_pkg: BTreeMap<String, u64> = BTreeMap::new();
+        for s in &self.segs {
+            *per_pkg.entry(self.pkgs[s.pkg].name.clone()).or_default() += s.count as u64;
+        }
+        json!({"packages": self.pkgs.iter().map(|p| p.name.clone()).collect::<Vec<_>>(), "cases_per_package": per_pkg, "xml_parts": parts,
             "elements": elements, "attributes": attrs, "cases_by_mutation_kind": per_kind})
     }
 }
@@ -287,23 +291,6 @@ fn unrank_pair(n: usize, mut k: usize) -> (usize, usize) {
     }
 }
 
-fn norm_loc(p: &str) -> String {
-    let loc = p.rsplit(" @ ").next().unwrap_or("");
-    for key in ["/xlsx/src/", "/base/src/"] {
-        if let Some(i) = loc.find(key) {
-            return loc[i + 1..].to_string();
-        }
-    }
-    if let Some(i) = loc.find("/registry/src/") {
-        let rest = &loc[i + 14..];
-        return rest.splitn(2, '/').nth(1).unwrap_or(rest).to_string();
-    }
-    if let Some(i) = loc.find("/library/") {
-        return loc[i + 1..].to_string();
-    }
-    loc.to_string()
-}
-
 fn fnv64(s: &str) -> u64 {
     let mut h: u64 = 0xcbf29ce484222325;
     for b in s.bytes() {
@@ -318,14 +305,14 @@ pub fn import_oracle(bytes: &[u8], case: &Value, what: &str, stage: &mut dyn FnM
     let mut ds = vec![];
     let mut calls = 1;
     let mk = |at: &str, entry: &str, p: &str| Disagreement {
-        sig: format!("panic at={}", at),
+        sig: format!("panic {}", at),
         case: case.clone(),
         detail: format!("{} panicked: {}\nmutation: {}", entry, p, what),
     };
     stage("load_from_xlsx_bytes");
     let outcome = match crate::env::guarded(|| load_from_xlsx_bytes(bytes, "imported", "en", "UTC")) {
         Err(p) => {
-            ds.push(mk(&norm_loc(&p), "load_from_xlsx_bytes", &p));
+            ds.push(mk(&isolate::panic_sig(&p), "load_from_xlsx_bytes", &p));
             "panic".to_string()
         }
         Ok(Err(e)) => {
@@ -343,7 +330,7 @@ pub fn import_oracle(bytes: &[u8], case: &Value, what: &str, stage: &mut dyn FnM
             stage("Model::from_workbook");
             match crate::env::guarded(|| Model::from_workbook(wb, "en")) {
                 Err(p) => {
-                    ds.push(mk(&norm_loc(&p), "Model::from_workbook (after a successful import)", &p));
+                    ds.push(mk(&isolate::panic_sig(&p), "Model::from_workbook (after a successful import)", &p));
                     "panic".to_string()
                 }
                 Ok(Err(_)) => format!("ok-import sheets={} cells={} model-err", sheets, cells),
@@ -352,7 +339,7 @@ pub fn import_oracle(bytes: &[u8], case: &Value, what: &str, stage: &mut dyn FnM
                     stage("Model::evaluate");
                     match crate::env::guarded(|| m.evaluate()) {
                         Err(p) => {
-                            ds.push(mk(&norm_loc(&p), "Model::evaluate (after a successful import)", &p));
+                            ds.push(mk(&isolate::panic_sig(&p), "Model::evaluate (after a successful import)", &p));
                             "panic".to_string()
                         }
                         Ok(()) => format!("ok sheets={} cells={}", sheets, cells),
@@ -529,8 +516,8 @@ pub fn run(run: &mut Run) {
                 .push(format!("seed package {} does not import cleanly: {}", p.name, outcome));
         }
     }
-    let lanes = crate::env::workers();
-    let batch = (n / (lanes * 6)).clamp(200, 20_000);
+    // batch size does not depend on the machine, so that the grouping of cases into threads is reproducible
+    let batch = if run.tier.thorough() { 16_384 } else { 4_096 };
     let sum = isolate::run_isolated(
         run,
         "C25",
@@ -558,7 +545,7 @@ pub fn run(run: &mut Run) {
         b["pairs"] = json!({"packages": PAIR_PKGS, "parts": PAIR_PARTS,
             "operators": "del-elem, del-children, dup-elem, del-attr, set-attr in {\"\", \"-1\", \"x\"}; both located on the original text, overlapping pairs reduced to the first"});
     }
-    b["isolation"] = json!({"worker_processes": sum.worker_processes, "deaths": sum.deaths, "hangs": sum.hangs,
+    b["isolation"] = json!({"worker_processes": sum.worker_processes, "deaths": sum.deaths, "hangs": sum.hangs, "transient_losses": sum.transient,
         "watchdog_s": WATCHDOG_S, "rlimit_as_gib": 4, "stack_mib": 8});
     run.bound = b;
     run.rule = "every single structural mutation of every XML part of every seed package (delete element / all children / attribute, duplicate element, 12 attribute values, 4 text values, truncation at every tag boundary, part removed, part replaced), zip truncation at every 64th byte and every central-directory byte zeroed / set to 0xFF; each mutated package goes through load_from_xlsx_bytes and, on Ok, Model::from_workbook and evaluate. non-trivial = the mutated part differs from the original and is still well-formed XML (so the damage reaches the importer's own logic), or the damaged archive still opens".into();
